@@ -79,12 +79,31 @@ func H17d() {
 	vReached("end")
 }
 
+// vEdge constrains s to the w values next to one end of the legal range:
+// +-2^30 for a latitude, 2^31-1 / -2^31 for a longitude.
+func vEdge(s int32, lat, neg bool, w int32) {
+	switch {
+	case lat && neg:
+		vAssume(s >= -(1<<30) && s < -(1<<30)+w)
+	case lat:
+		vAssume(s <= 1<<30 && s > 1<<30-w)
+	case neg:
+		vAssume(s < -(1<<30)-(1<<30)+w)
+	default:
+		vAssume(s > 0x7FFFFFFF-w)
+	}
+}
+
 // H17e: constructing from Degrees() gives back the same coordinate within one
 // semicircle whenever the degrees lie strictly inside the legal range.
 func H17e() {
 	k, neg, lat := vParam("k"), vParam("neg") == 1, vParam("lat") == 1
 	s := vI32()
-	vClass(s, k, neg)
+	if k == -2 {
+		vEdge(s, lat, neg, int32(vParam("w")))
+	} else {
+		vClass(s, k, neg)
+	}
 	vAssume(s != 0x7FFFFFFF)
 	if lat {
 		l := NewLatitude(s)
